@@ -1,9 +1,17 @@
 /-
   C16 — the statements of glom/grouping.py (and of the aggregator entry points of
   glom/reduction.py) that `Glom/Model/C16.lean` transcribes, as (function, nesting
-  depth, normalised source).  `WFSrc` demands that the table regenerated from /repo
+  depth, source in NORMAL FORM).  `WFSrc` demands that the table regenerated from /repo
   on every run (`Glom.Generated.grpStmts`) is exactly this one: any change to the
   control flow of Group mode breaks the per-run facts obligation `c16_facts_wf`.
+
+  The normal form is computed by extract/facts/c16.py (rules N1–N12 there: docstrings
+  dropped, immutable module constants / one-expression local functions / tail-called
+  private helpers / single-use access-path aliases inlined, `x = A if C else B`,
+  `x = M[K] = E`, the try/KeyError lookup, the False/True flag and `.get(k, None)`
+  spelled one way, a terminating `if` body swallows the rest as its `else`, tests
+  positive, locals renamed L0, L1, … in order of first binding).  Rewrites that keep what
+  a function does map to the same normal form; anything else does not.
 -/
 namespace Glom.C16
 
@@ -12,77 +20,82 @@ def expectedStmts : List (String × Nat × String) :=
    ("Group.glomit", 0, "scope[CUR_AGG] = None"),
    ("Group.glomit", 0, "scope[ACC_TREE] = {}"),
    ("Group.glomit", 0, "if type(self.spec) in (dict, list)"),
-   ("Group.glomit", 1, "ret = type(self.spec)()"),
+   ("Group.glomit", 1, "L0 = type(self.spec)()"),
    ("Group.glomit", 0, "else"),
-   ("Group.glomit", 1, "ret = None"),
-   ("Group.glomit", 0, "for t in target_iter(target, scope)"),
-   ("Group.glomit", 1, "last, ret = (ret, scope[glom](t, self.spec, scope))"),
-   ("Group.glomit", 1, "if ret is STOP"),
-   ("Group.glomit", 2, "return last"),
-   ("Group.glomit", 0, "return ret"),
-   ("GROUP", 0, "recurse = lambda spec: scope[glom](target, spec, scope)"),
-   ("GROUP", 0, "tree = scope[ACC_TREE]"),
+   ("Group.glomit", 1, "L0 = None"),
+   ("Group.glomit", 0, "for L1 in target_iter(target, scope)"),
+   ("Group.glomit", 1, "L2, L0 = (L0, scope[glom](L1, self.spec, scope))"),
+   ("Group.glomit", 1, "if L0 is STOP"),
+   ("Group.glomit", 2, "return L2"),
+   ("Group.glomit", 0, "return L0"),
+   ("GROUP", 0, "L0 = scope[ACC_TREE]"),
    ("GROUP", 0, "if callable(getattr(spec, 'agg', None))"),
-   ("GROUP", 1, "return spec.agg(target, tree)"),
+   ("GROUP", 1, "return spec.agg(target, L0)"),
    ("GROUP", 0, "else"),
    ("GROUP", 1, "if callable(spec)"),
    ("GROUP", 2, "return spec(target)"),
-   ("GROUP", 0, "_spec_type = type(spec)"),
-   ("GROUP", 0, "if _spec_type not in (dict, list)"),
-   ("GROUP", 1, "raise BadSpec"),
-   ("GROUP", 0, "_spec_id = id(spec)"),
-   ("GROUP", 0, "try"),
-   ("GROUP", 1, "acc = tree[_spec_id]"),
-   ("GROUP", 0, "except KeyError"),
-   ("GROUP", 1, "acc = tree[_spec_id] = _spec_type()"),
-   ("GROUP", 0, "if _spec_type is dict"),
-   ("GROUP", 1, "done = True"),
-   ("GROUP", 1, "for (keyspec, valspec) in spec.items()"),
-   ("GROUP", 2, "if tree.get(keyspec, None) is STOP"),
-   ("GROUP", 3, "continue"),
-   ("GROUP", 2, "key = recurse(keyspec)"),
-   ("GROUP", 2, "if key is SKIP"),
-   ("GROUP", 3, "done = False"),
-   ("GROUP", 3, "continue"),
-   ("GROUP", 2, "if key is STOP"),
-   ("GROUP", 3, "tree[keyspec] = STOP"),
-   ("GROUP", 3, "continue"),
-   ("GROUP", 2, "if key not in acc"),
-   ("GROUP", 3, "tree[key] = {}"),
-   ("GROUP", 2, "scope[ACC_TREE] = tree[key]"),
-   ("GROUP", 2, "result = recurse(valspec)"),
-   ("GROUP", 2, "if result is STOP"),
-   ("GROUP", 3, "tree[keyspec] = STOP"),
-   ("GROUP", 3, "continue"),
-   ("GROUP", 2, "done = False"),
-   ("GROUP", 2, "if result is not SKIP"),
-   ("GROUP", 3, "acc[key] = result"),
-   ("GROUP", 1, "if done"),
-   ("GROUP", 2, "return STOP"),
-   ("GROUP", 1, "return acc"),
+   ("GROUP", 0, "L1 = type(spec)"),
+   ("GROUP", 0, "if L1 in (dict, list)"),
+   ("GROUP", 1, "L2 = id(spec)"),
+   ("GROUP", 1, "if L2 not in L0"),
+   ("GROUP", 2, "L0[L2] = L1()"),
+   ("GROUP", 1, "L3 = L0[L2]"),
+   ("GROUP", 1, "if L1 is dict"),
+   ("GROUP", 2, "L4 = True"),
+   ("GROUP", 2, "for (L5, L6) in spec.items()"),
+   ("GROUP", 3, "if L0.get(L5) is STOP"),
+   ("GROUP", 4, "continue"),
+   ("GROUP", 3, "else"),
+   ("GROUP", 4, "L7 = scope[glom](target, L5, scope)"),
+   ("GROUP", 4, "if L7 is SKIP"),
+   ("GROUP", 5, "L4 = False"),
+   ("GROUP", 5, "continue"),
+   ("GROUP", 4, "else"),
+   ("GROUP", 5, "if L7 is STOP"),
+   ("GROUP", 6, "L0[L5] = STOP"),
+   ("GROUP", 6, "continue"),
+   ("GROUP", 5, "else"),
+   ("GROUP", 6, "if L7 not in L3"),
+   ("GROUP", 7, "L0[L7] = {}"),
+   ("GROUP", 6, "scope[ACC_TREE] = L0[L7]"),
+   ("GROUP", 6, "L8 = scope[glom](target, L6, scope)"),
+   ("GROUP", 6, "if L8 is STOP"),
+   ("GROUP", 7, "L0[L5] = STOP"),
+   ("GROUP", 7, "continue"),
+   ("GROUP", 6, "else"),
+   ("GROUP", 7, "L4 = False"),
+   ("GROUP", 7, "if L8 is not SKIP"),
+   ("GROUP", 8, "L3[L7] = L8"),
+   ("GROUP", 2, "if L4"),
+   ("GROUP", 3, "return STOP"),
+   ("GROUP", 2, "else"),
+   ("GROUP", 3, "return L3"),
+   ("GROUP", 1, "else"),
+   ("GROUP", 2, "if L1 is list"),
+   ("GROUP", 3, "for L6 in spec"),
+   ("GROUP", 4, "if type(L6) is dict"),
+   ("GROUP", 5, "raise BadSpec"),
+   ("GROUP", 4, "else"),
+   ("GROUP", 5, "L8 = scope[glom](target, L6, scope)"),
+   ("GROUP", 5, "if L8 is STOP"),
+   ("GROUP", 6, "return STOP"),
+   ("GROUP", 5, "else"),
+   ("GROUP", 6, "if L8 is not SKIP"),
+   ("GROUP", 7, "L3.append(L8)"),
+   ("GROUP", 3, "return L3"),
+   ("GROUP", 1, "raise ValueError"),
    ("GROUP", 0, "else"),
-   ("GROUP", 1, "if _spec_type is list"),
-   ("GROUP", 2, "for valspec in spec"),
-   ("GROUP", 3, "if type(valspec) is dict"),
-   ("GROUP", 4, "raise BadSpec"),
-   ("GROUP", 3, "result = recurse(valspec)"),
-   ("GROUP", 3, "if result is STOP"),
-   ("GROUP", 4, "return STOP"),
-   ("GROUP", 3, "if result is not SKIP"),
-   ("GROUP", 4, "acc.append(result)"),
-   ("GROUP", 2, "return acc"),
-   ("GROUP", 0, "raise ValueError"),
-   ("First.agg", 0, "if self not in tree"),
+   ("GROUP", 1, "raise BadSpec"),
+   ("First.agg", 0, "if self in tree"),
+   ("First.agg", 1, "return STOP"),
+   ("First.agg", 0, "else"),
    ("First.agg", 1, "tree[self] = STOP"),
    ("First.agg", 1, "return target"),
-   ("First.agg", 0, "return STOP"),
-   ("Avg.agg", 0, "try"),
-   ("Avg.agg", 1, "avg_acc = tree[self]"),
-   ("Avg.agg", 0, "except KeyError"),
-   ("Avg.agg", 1, "avg_acc = tree[self] = [0.0, 0]"),
-   ("Avg.agg", 0, "avg_acc[0] += target"),
-   ("Avg.agg", 0, "avg_acc[1] += 1"),
-   ("Avg.agg", 0, "return avg_acc[0] / avg_acc[1]"),
+   ("Avg.agg", 0, "if self not in tree"),
+   ("Avg.agg", 1, "tree[self] = [0.0, 0]"),
+   ("Avg.agg", 0, "tree[self][0] += target"),
+   ("Avg.agg", 0, "tree[self][1] += 1"),
+   ("Avg.agg", 0, "return tree[self][0] / tree[self][1]"),
    ("Max.agg", 0, "if self not in tree or target > tree[self]"),
    ("Max.agg", 1, "tree[self] = target"),
    ("Max.agg", 0, "return tree[self]"),
@@ -91,25 +104,27 @@ def expectedStmts : List (String × Nat × String) :=
    ("Min.agg", 0, "return tree[self]"),
    ("Sample.agg", 0, "if self not in tree"),
    ("Sample.agg", 1, "tree[self] = [0, []]"),
-   ("Sample.agg", 0, "num_seen, sample = tree[self]"),
-   ("Sample.agg", 0, "if len(sample) < self.size"),
-   ("Sample.agg", 1, "sample.append(target)"),
+   ("Sample.agg", 0, "L0, L1 = tree[self]"),
+   ("Sample.agg", 0, "if len(L1) < self.size"),
+   ("Sample.agg", 1, "L1.append(target)"),
    ("Sample.agg", 0, "else"),
-   ("Sample.agg", 1, "pos = random.randint(0, num_seen)"),
-   ("Sample.agg", 1, "if pos < self.size"),
-   ("Sample.agg", 2, "sample[pos] = target"),
+   ("Sample.agg", 1, "L2 = random.randint(0, L0)"),
+   ("Sample.agg", 1, "if L2 < self.size"),
+   ("Sample.agg", 2, "L1[L2] = target"),
    ("Sample.agg", 0, "tree[self][0] += 1"),
-   ("Sample.agg", 0, "return sample"),
-   ("Limit.glomit", 0, "if scope[MODE] is not GROUP"),
+   ("Sample.agg", 0, "return L1"),
+   ("Limit.glomit", 0, "if scope[MODE] is GROUP"),
+   ("Limit.glomit", 1, "L0 = scope[ACC_TREE]"),
+   ("Limit.glomit", 1, "if self not in L0"),
+   ("Limit.glomit", 2, "L0[self] = [0, {}]"),
+   ("Limit.glomit", 1, "scope[ACC_TREE] = L0[self][1]"),
+   ("Limit.glomit", 1, "L0[self][0] += 1"),
+   ("Limit.glomit", 1, "if L0[self][0] > self.n"),
+   ("Limit.glomit", 2, "return STOP"),
+   ("Limit.glomit", 1, "else"),
+   ("Limit.glomit", 2, "return scope[glom](target, self.subspec, scope)"),
+   ("Limit.glomit", 0, "else"),
    ("Limit.glomit", 1, "raise BadSpec"),
-   ("Limit.glomit", 0, "tree = scope[ACC_TREE]"),
-   ("Limit.glomit", 0, "if self not in tree"),
-   ("Limit.glomit", 1, "tree[self] = [0, {}]"),
-   ("Limit.glomit", 0, "scope[ACC_TREE] = tree[self][1]"),
-   ("Limit.glomit", 0, "tree[self][0] += 1"),
-   ("Limit.glomit", 0, "if tree[self][0] > self.n"),
-   ("Limit.glomit", 1, "return STOP"),
-   ("Limit.glomit", 0, "return scope[glom](target, self.subspec, scope)"),
    ("Limit.__init__", 0, "if subspec is _MISSING"),
    ("Limit.__init__", 1, "subspec = [T]"),
    ("Limit.__init__", 0, "self.n = n"),
@@ -118,19 +133,19 @@ def expectedStmts : List (String × Nat × String) :=
    ("Fold._agg", 1, "tree[self] = self.init()"),
    ("Fold._agg", 0, "tree[self] = self.op(tree[self], target)"),
    ("Fold._agg", 0, "return tree[self]"),
-   ("Merge._agg", 0, "if self not in tree"),
-   ("Merge._agg", 1, "acc = tree[self] = self.init()"),
+   ("Merge._agg", 0, "if self in tree"),
+   ("Merge._agg", 1, "L0 = tree[self]"),
    ("Merge._agg", 0, "else"),
-   ("Merge._agg", 1, "acc = tree[self]"),
-   ("Merge._agg", 0, "self.op(acc, target)"),
-   ("Merge._agg", 0, "return acc"),
-   ("Fold.glomit[agg]", 0, "is_agg = False"),
-   ("Fold.glomit[agg]", 0, "if scope[MODE] is GROUP and scope.get(CUR_AGG) is None"),
+   ("Merge._agg", 1, "tree[self] = self.init()"),
+   ("Merge._agg", 1, "L0 = tree[self]"),
+   ("Merge._agg", 0, "self.op(L0, target)"),
+   ("Merge._agg", 0, "return L0"),
+   ("Fold.glomit[agg]", 0, "L0 = scope[MODE] is GROUP and scope.get(CUR_AGG) is None"),
+   ("Fold.glomit[agg]", 0, "if L0"),
    ("Fold.glomit[agg]", 1, "scope[CUR_AGG] = self"),
-   ("Fold.glomit[agg]", 1, "is_agg = True"),
    ("Fold.glomit[agg]", 0, "if self.subspec is not T"),
    ("Fold.glomit[agg]", 1, "target = scope[glom](target, self.subspec, scope)"),
-   ("Fold.glomit[agg]", 0, "if is_agg"),
+   ("Fold.glomit[agg]", 0, "if L0"),
    ("Fold.glomit[agg]", 1, "return self._agg(target, scope[ACC_TREE])")]
 
 /-- aggregator objects carry no state of their own (`__slots__ = ()`); Limit keeps only its
